@@ -114,6 +114,10 @@ def templates(tier):
                 out.append(dict(base, template="zip3", n=1, items=2))
                 out.append(dict(base, template="union-delay", timers=True, items=2))
                 out.append(dict(base, template="union", items=2))
+    # loop-iteration granularity (arrivals / completions between two loop iterations)
+    for tname, kw in (("buffer", {"n": 1}), ("timed_window", {"timers": True}), ("partition-timeout", {"n": 2, "timers": True}),
+                      ("map_async", {"n": 1}), ("delay", {"timers": True}), ("zip", {"n": 1, "items": 2})):
+        out.append(dict({"native": False, "awaiting": False, "items": 3, "fine": True}, template=tname, **kw))
     return out
 
 
@@ -127,6 +131,9 @@ def obligations(tier):
                                          "await" if sh["awaiting"] else "blind", steps)
         if sh.get("slow_sink"):
             nm += "/slow-sink"
-        obls.append({"name": nm, "body": "body", "pre": "pre", "shard": sh,
-                     "types": ["int"] * steps, "budget": 400 if q else 2400})
+        if sh.get("fine"):
+            nm += "/fine"
+        st = steps - 1 if (q and (sh.get("fine") or sh["template"] == "zip3")) else steps
+        obls.append({"name": nm.replace("steps=%d" % steps, "steps=%d" % st), "body": "body", "pre": "pre",
+                     "shard": sh, "types": ["int"] * st, "budget": 400 if q else 2400})
     return obls
